@@ -92,7 +92,8 @@ def delegation(db, ctx):
             a = call_args(c)
             cs = (render(a[1]), render(a[2]))
             pcs = path_conditions(c["id"], sp.hir) or []
-            cl = [("" if p else "!") + render(a2) for cn, pol in pcs if isinstance(cn, dict) for a2, p in atoms(cn, pol)]
+            cl = [("" if p else "!") + ("splitted" if mentions(a2, is_call_to("MorphemeList::split_into")) else render(a2)[:60])
+                  for cn, pol in pcs if isinstance(cn, dict) for a2, p in atoms(cn, pol)]
     ok = order[:3] == ["clear", "split_into", "copy_slice"] and si == "self.index" and cs == ("self.index", "(self.index + 1)") and any("!splitted" == x for x in (cl or []))
     ctx.ob("PyMorpheme::split", ok, "split: call order %s; split_into index arg `%s`; copy_slice range %s under %s" % (order, si, cs, cl), fn=sp)
     ctx.floor(14)
